@@ -64,11 +64,13 @@ def stepWidthInc (s : State K) : Nat :=
 
 /-- pilots applied, rates stored, snapshot, `iteration += 1`, for a given growth target
     (simulator.py:179-184; the same statements as simulator.py:136-141 of `run`) -/
+def widenW (w : Nat) (s : State K) : State K :=
+  { s with pilots := Pilots.increaseWidth s.pilots w, rates := Pilots.increaseWidth s.rates w }
+
 def applyStageW (cfg : Cfg K) (w : Nat) (s : State K) : State K × Option Err :=
-  let s1 := { s with pilots := Pilots.increaseWidth s.pilots w, rates := Pilots.increaseWidth s.rates w }
-  if s1.pilots.width ≤ s.core.iter then (s1, some .indexError)
+  if (widenW w s).pilots.width ≤ s.core.iter then (widenW w s, some .indexError)
   else
-    match updatePilots cfg s1 with
+    match updatePilots cfg (widenW w s) with
     | (s2, some e) => (s2, some e)
     | (s2, none) =>
       match storeRates cfg w s2 with
